@@ -237,8 +237,63 @@ def gen_file_constant_program(rng):
     return (rules if rng.random() < 0.8 else rules.replace("halt => 0x55\n", "")) + "\n".join(lines) + "\n"
 
 
+def gen_nested_token_program(rng):
+    """parameterless sub-rule alternatives whose productions read the address or a label (`here => $`8`,
+    `back => mid`8`), used as operands after an instruction that shrinks once a forward label is known"""
+    alts = rng.sample(["here => $`8", "back => mid`8", "fwdt => fwd`8", "lit => 0x55", "two => ($ + 2)`8"], rng.randrange(2, 5))
+    sub = "#subruledef place\n{\n" + "".join("    %s\n" % a for a in alts) + "}\n"
+    rules = ("#ruledef\n{\n    ld {x} => { assert(x < %d), 0x1 @ x`4 }\n    ld {x} => 0xff @ x`16\n"
+             "    mark {p: place} => 0x30 @ p\n    mark2 {p: place}, {q: place} => 0x31 @ p @ q\n    nop => 0x00\n}\n" % rng.choice([0x10, 8, 4]))
+    names = [a.split(" ")[0] for a in alts]
+    lines = []
+    for _ in range(rng.randrange(0, 2)):
+        lines.append("    nop")
+    lines.append("    ld fwd")
+    lines.append("mid:")
+    for _ in range(rng.randrange(1, 4)):
+        if rng.random() < 0.7:
+            lines.append("    mark %s" % rng.choice(names))
+        else:
+            lines.append("    mark2 %s, %s" % (rng.choice(names), rng.choice(names)))
+        if rng.random() < 0.3:
+            lines.append("    ld fwd")
+    for _ in range(rng.randrange(0, 3)):
+        lines.append("    nop")
+    lines.append("fwd:")
+    if rng.random() < 0.5:
+        lines.append("    nop")
+    return sub + rules + "\n".join(lines) + "\n"
+
+
+def gen_bool_constant_program(rng):
+    """boolean (and string) constants that depend on labels through other constants, read by a rule's ternary
+    before they are declared: a flip of such a constant between two passes must count as a change"""
+    thr = rng.randrange(2, 7)
+    ndata = rng.randrange(2, 7)
+    rules = "#ruledef\n{\n    ld => far ? 0xaabb : 0xcc\n    st => (far && near) ? 0x11 : 0x2222\n    nm => tag == \"a\" ? 0x33 : 0x4444\n    nop => 0x00\n}\n"
+    lines = []
+    for _ in range(rng.randrange(1, 4)):
+        lines.append("    " + rng.choice(["ld", "ld", "st", "nm", "nop"]))
+    lines.append("far = dist > %d" % thr)
+    lines.append("near = dist < %d" % (thr + rng.randrange(1, 6)))
+    lines.append("tag = dist > %d ? \"a\" : \"b\"" % rng.randrange(2, 8))
+    lines.append("dist = end + 0" if rng.random() < 0.7 else "dist = end - start")
+    lines.append("start:")
+    lines.append("    #d8 " + ", ".join(str(i + 1) for i in range(ndata)))
+    for _ in range(rng.randrange(0, 3)):
+        lines.append("    " + rng.choice(["ld", "st", "nm"]))
+    lines.append("end:")
+    if rng.random() < 0.6:
+        lines.append("#assert end >= %d" % rng.randrange(1, ndata + 1))
+    return rules + "\n".join(lines) + "\n"
+
+
 def gen_any(rng):
     r = rng.random()
     if r < 0.1:
         return gen_file_constant_program(rng)
-    return gen_block_program(rng) if r < 0.36 else gen_program(rng)
+    if r < 0.16:
+        return gen_nested_token_program(rng)
+    if r < 0.22:
+        return gen_bool_constant_program(rng)
+    return gen_block_program(rng) if r < 0.46 else gen_program(rng)
